@@ -323,6 +323,21 @@ fn check_arbitrary(text: &str) -> Option<(String, String)> {
                     rest = r;
                 }
                 Ok((_, None)) => return None,
+                Err(parse::Error::Incomplete) => {
+                    // "incomplete" asks for more input: the parser must have used up what there is
+                    if let Ok(tokens) = lex::scan(rest) {
+                        let mut cur = tokens.iter().peekable();
+                        if let Err(parse::Error::Incomplete) = parse::parse(rest, &mut cur) {
+                            if let Some(t) = cur.peek() {
+                                return Some(format!(
+                                    "incomplete reported-with-input-left: token at offset {} of {:?} was never consumed",
+                                    t.span.0, rest
+                                ));
+                            }
+                        }
+                    }
+                    return None;
+                }
                 Err(_) => return None,
             }
         }
